@@ -29,7 +29,8 @@ S0 == [t |-> T0,             \* tracker state of GEEvaluation, keyed by individu
        since |-> 0,          \* invocations since the last budget check
        checks |-> 0,         \* budget checks so far
        done |-> FALSE,       \* a check has answered TRUE
-       lastcount |-> 0]
+       lastcount |-> 0,
+       cur |-> <<>>]         \* individuals registered since the last `present` event
 
 Get(f, k, dflt) == IF k \in DOMAIN f THEN f[k] ELSE dflt
 Put(f, k, v) == [j \in DOMAIN f \cup {k} |-> IF j = k THEN v ELSE f[j]]
@@ -47,13 +48,14 @@ EffReg(x, ev) ==
     LET t1 == IF HasFit(x.t, ev.ind) THEN x.t
               ELSE [EvalOne(x.t, ev.ind, TrueFit(x, ev), Mini) EXCEPT !.count = x.t.count, !.ffn = x.t.ffn]
         t2 == IF Cfg.multi THEN PostMulti(t1, ev.ind, Mini) ELSE PostSingle(t1, ev.ind, Mini)
-    IN [x EXCEPT !.t = t2]
+    IN [x EXCEPT !.t = t2, !.cur = Append(x.cur, ev.ind)]
 
 EffCheck(x, ev) == [x EXCEPT !.since = 0, !.checks = x.checks + 1, !.done = ev.done, !.lastcount = ev.count]
 
 Eff(x, ev) == CASE ev.e = "ff"    -> EffFF(x, ev)
                 [] ev.e = "reg"   -> EffReg(x, ev)
                 [] ev.e = "check" -> EffCheck(x, ev)
+                [] ev.e = "present" -> [x EXCEPT !.cur = <<>>]
                 [] OTHER -> x
 
 \* ---- clauses: each returns the sequence of violated clause names (possibly empty) ------
@@ -85,9 +87,11 @@ RegClauses(x, ev) ==
                  THEN <<<<"C12", "C12:tracker-best">>>> ELSE <<>>))
 
 BudgetPred(x, ev) ==
-    CASE Cfg.budget = "eval"   -> EvalBudgetDone(ev.count, Cfg.n)
+    \* "at least n evaluations have been made": judged on the invocations the trace has seen (x.ffn),
+    \* not on the counter the implementation reports (whose honesty is C13's business)
+    CASE Cfg.budget = "eval"   -> EvalBudgetDone(x.ffn, Cfg.n)
       [] Cfg.budget = "target" -> TargetDone(ev.hasbest, ev.c, ev.tlo, ev.thi)
-      [] Cfg.budget = "anyof"  -> TargetDone(ev.hasbest, ev.c, ev.tlo, ev.thi) \/ EvalBudgetDone(ev.count, Cfg.n)
+      [] Cfg.budget = "anyof"  -> TargetDone(ev.hasbest, ev.c, ev.tlo, ev.thi) \/ EvalBudgetDone(x.ffn, Cfg.n)
       [] OTHER -> FALSE
 
 CheckClauses(x, ev) ==
@@ -142,6 +146,10 @@ AllClauses(x, ev) ==
       [] ev.e = "check" -> CheckClauses(x, ev)
       [] ev.e = "ret"   -> RetClauses(x, ev)
       [] ev.e = "lasso" -> LassoClauses(x, ev)
+      [] ev.e = "present" -> <<>>
+      \* every individual handed to tracker.evaluate is post-processed (registered), in order,
+      \* whether or not it already had a fitness
+      [] ev.e = "endpresent" -> IF x.cur # ev.ids THEN <<<<"C12", "C12:presented-not-registered">>>> ELSE <<>>
       [] ev.e = "evalcall" -> EvalcallClauses(x, ev)
       [] ev.e = "evalpair" -> EvalpairClauses(x, ev)
       [] OTHER -> <<<<Prop, "unknown-event">>>>
